@@ -7,7 +7,7 @@
 use nvh_common::*;
 use query_router::{QueryResult, QueryRouter};
 use relational_engine::{
-    Column, ColumnType, ColumnarScanOptions, Condition, CursorOptions, RelationalEngine, Row, Schema, Value,
+    Column, ColumnType, ColumnarScanOptions, Condition, CursorOptions, RelationalConfig, RelationalEngine, Row, Schema, Value,
 };
 use std::collections::HashMap;
 use std::panic::AssertUnwindSafe;
@@ -255,6 +255,16 @@ impl Q {
 
 struct Scen {
     router: QueryRouter,
+    /// budget scenarios run on an engine of their own (tiny B-tree entry budget), not the router's
+    own: Option<RelationalEngine>,
+    /// open transaction: DML goes through tx_insert / tx_update / tx_delete
+    tx: Option<u64>,
+    /// inside an open transaction one of whose statements failed half-way (before its rollback):
+    /// queries are compared and reported under this class instead of being judged by the case oracle
+    window: Option<&'static str>,
+    window_reported: bool,
+    /// the last DML statement returned an error
+    last_failed: bool,
     schema: Vec<(u64, bool)>,
     cur: Dump,
     steps: Vec<String>,
@@ -263,7 +273,10 @@ struct Scen {
 }
 impl Scen {
     fn eng(&self) -> &RelationalEngine {
-        self.router.relational()
+        match &self.own {
+            Some(e) => e,
+            None => self.router.relational(),
+        }
     }
     fn ncols(&self) -> usize {
         self.schema.len()
@@ -341,6 +354,9 @@ fn run_query(s: &Scen, strat: u64, c: &C, lim: u64, off: u64, col: u64) -> Optio
                 Err(x) => Q::Err(x.to_string()),
             },
             8 => {
+                if s.own.is_some() {
+                    return None;
+                }
                 let w = c.sql()?;
                 match s.router.execute_parsed(&format!("SELECT * FROM t WHERE {w}")) {
                     Ok(QueryResult::Rows(rows)) => rows_q(Ok(rows), nc),
@@ -437,7 +453,11 @@ fn demanded(s: &Scen, strat: u64, c: &C, lim: u64, off: u64, col: u64) -> Q {
 }
 
 fn new_scen(schema: Vec<(u64, bool)>) -> Scen {
+    new_scen_with(schema, None)
+}
+fn new_scen_with(schema: Vec<(u64, bool)>, btree_budget: Option<usize>) -> Scen {
     let router = QueryRouter::new();
+    let own = btree_budget.map(|k| RelationalEngine::with_config(RelationalConfig::new().with_max_btree_entries(k)));
     let cols: Vec<Column> = schema
         .iter()
         .enumerate()
@@ -454,8 +474,11 @@ fn new_scen(schema: Vec<(u64, bool)>) -> Scen {
             if *nullable { c.nullable() } else { c }
         })
         .collect();
-    router.relational().create_table("t", Schema::new(cols)).expect("create table");
-    Scen { router, schema, cur: vec![], steps: vec![], human: vec![], nontrivial: false }
+    match &own {
+        Some(e) => e.create_table("t", Schema::new(cols)).expect("create table"),
+        None => router.relational().create_table("t", Schema::new(cols)).expect("create table"),
+    }
+    Scen { router, own, tx: None, window: None, window_reported: false, last_failed: false, schema, cur: vec![], steps: vec![], human: vec![], nontrivial: false }
 }
 
 fn do_insert(s: &mut Scen, vals: Vec<V>, dist: &mut Dist) {
@@ -465,40 +488,66 @@ fn do_insert(s: &mut Scen, vals: Vec<V>, dist: &mut Dist) {
             m.insert(format!("c{i}"), v.to_value()); // NULL sometimes explicit, sometimes absent
         }
     }
-    let ret = s.eng().insert("t", m).ok();
+    let ret = match s.tx {
+        Some(tx) => s.eng().tx_insert(tx, "t", m).ok(),
+        None => s.eng().insert("t", m).ok(),
+    };
     let post = s.refresh();
     dist.hit(if ret.is_some() { "op.insert" } else { "op.insert_rejected" });
-    s.steps.push(format!("SInsert {} {} {}", list(vals.iter().map(|v| v.coq())), opt(ret.map(n)), dump_coq(&post)));
+    s.last_failed = ret.is_none();
+    if s.tx.is_some() && ret.is_none() {
+        // a statement that failed inside an open transaction keeps its partial effects until the
+        // rollback: not judged (the transaction is resolved by the caller), only re-synchronised
+        s.steps.push(format!("SSync {}", dump_coq(&post)));
+    } else {
+        s.steps.push(format!("SInsert {} {} {}", list(vals.iter().map(|v| v.coq())), opt(ret.map(n)), dump_coq(&post)));
+    }
     s.human.push(format!("insert{vals:?}->{ret:?}"));
 }
 fn do_update(s: &mut Scen, c: &C, sets: Vec<(u64, V)>, dist: &mut Dist) {
     let touched = s.expected(c);
     let m: HashMap<String, Value> = sets.iter().map(|(c, v)| (col_name(*c), v.to_value())).collect();
-    let ret = s.eng().update("t", c.to_cond(), m).ok().map(|k| k as u64);
+    let ret = match s.tx {
+        Some(tx) => s.eng().tx_update(tx, "t", c.to_cond(), m).ok().map(|k| k as u64),
+        None => s.eng().update("t", c.to_cond(), m).ok().map(|k| k as u64),
+    };
     let post = s.refresh();
     dist.hit(if ret.is_some() { "op.update" } else { "op.update_rejected" });
     if !touched.is_empty() {
         s.nontrivial = true;
     }
-    s.steps.push(format!(
-        "SUpdate {} {} {} {} {}",
-        c.coq(),
-        list(sets.iter().map(|(c, v)| format!("({c}, {})", v.coq()))),
-        ids_coq(&touched),
-        opt(ret.map(n)),
-        dump_coq(&post)
-    ));
+    s.last_failed = ret.is_none();
+    if s.tx.is_some() && ret.is_none() {
+        s.steps.push(format!("SSync {}", dump_coq(&post)));
+    } else {
+        s.steps.push(format!(
+            "SUpdate {} {} {} {} {}",
+            c.coq(),
+            list(sets.iter().map(|(c, v)| format!("({c}, {})", v.coq()))),
+            ids_coq(&touched),
+            opt(ret.map(n)),
+            dump_coq(&post)
+        ));
+    }
     s.human.push(format!("update({c:?},{sets:?})->{ret:?}"));
 }
 fn do_delete(s: &mut Scen, c: &C, dist: &mut Dist) {
     let touched = s.expected(c);
-    let ret = s.eng().delete_rows("t", c.to_cond()).ok().map(|k| k as u64);
+    let ret = match s.tx {
+        Some(tx) => s.eng().tx_delete(tx, "t", c.to_cond()).ok().map(|k| k as u64),
+        None => s.eng().delete_rows("t", c.to_cond()).ok().map(|k| k as u64),
+    };
     let post = s.refresh();
     dist.hit("op.delete");
     if !touched.is_empty() {
         s.nontrivial = true;
     }
-    s.steps.push(format!("SDelete {} {} {} {}", c.coq(), ids_coq(&touched), opt(ret.map(n)), dump_coq(&post)));
+    s.last_failed = ret.is_none();
+    if s.tx.is_some() && ret.is_none() {
+        s.steps.push(format!("SSync {}", dump_coq(&post)));
+    } else {
+        s.steps.push(format!("SDelete {} {} {} {}", c.coq(), ids_coq(&touched), opt(ret.map(n)), dump_coq(&post)));
+    }
     s.human.push(format!("delete({c:?})->{ret:?}"));
 }
 fn do_index(s: &mut Scen, kind: u64, col: u64, dist: &mut Dist) {
@@ -534,6 +583,17 @@ fn do_query(s: &mut Scen, strat: u64, c: &C, lim: u64, off: u64, col: u64, dist:
         if std::env::var("NV_DEBUG").is_ok() {
             eprintln!("DIFF {} schema={:?} cond={:?} lim={lim} off={off} col={col}\n   table={:?}\n   got ={:?}\n   want={:?}", STRAT_NAMES[strat as usize], s.schema, c, s.cur, got, want);
         }
+    }
+    if let Some(class) = s.window {
+        if !agree && !s.window_reported {
+            s.window_reported = true;
+            hits.push(
+                class,
+                &format!("{} returned {:?} but the rows satisfying the condition give {:?} (transaction with a half-failed statement still open)", STRAT_NAMES[strat as usize], got, want),
+                json!({"schema": format!("{:?}", s.schema), "trace": s.human.clone(), "cond": format!("{c:?}")}),
+            );
+        }
+        return;
     }
     if strat == 5 || strat == 9 || strat == 11 {
         // no model for float arithmetic / the streaming cursor: implementation-only oracle
@@ -784,6 +844,169 @@ fn special_scen(r: &mut Rng, w: &mut CaseWriter, dist: &mut Dist, hits: &mut Hit
     finish(&s, w, "special-values");
 }
 
+// ------------------------------------------------------------------------------------ budget scenarios
+/// every index-served query shape on the indexed columns, against the values in play
+fn index_shapes(s: &mut Scen, idx_cols: &[(u64, u64)], vals: &[Vec<V>], r: &mut Rng, dist: &mut Dist, hits: &mut Hits) {
+    for (col, kind) in idx_cols {
+        let pool = &vals[*col as usize];
+        let ops: &[u64] = if *kind == 0 { &[0] } else { &[2, 3, 4, 5] };
+        for op in ops {
+            for v in pool {
+                let c = C::Cmp(*op, *col, v.clone());
+                // select and count always; one more strategy at random
+                do_query(s, 0, &c, 100, 0, *col, dist, hits);
+                do_query(s, 4, &c, 100, 0, *col, dist, hits);
+                let extra = *r.pick(&[1u64, 3, 6, 7, 10]);
+                let lim = *r.pick(&[1u64, 2, 100]);
+                do_query(s, extra, &c, lim, r.below(2), *col, dist, hits);
+            }
+        }
+        // compound: the index serves one side of an AND
+        let other = (*col + 1) % s.ncols() as u64;
+        let c = C::And(
+            Box::new(C::Cmp(if *kind == 0 { 0 } else { 3 }, *col, r.pick(pool).clone())),
+            Box::new(C::Cmp(1, other, r.pick(&vals[other as usize]).clone())),
+        );
+        do_query(s, 0, &c, 100, 0, *col, dist, hits);
+        do_query(s, 4, &c, 100, 0, *col, dist, hits);
+    }
+}
+fn sync_step(s: &mut Scen, what: &str) {
+    let post = s.refresh();
+    s.steps.push(format!("SSync {}", dump_coq(&post)));
+    s.human.push(what.to_string());
+}
+/// Tiny B-tree entry budget, indexes created on the EMPTY table, few distinct values (shared keys),
+/// statements that fail half-way, outside and inside transactions; after EVERY statement every
+/// index-served query shape is compared with what the real evaluate selects on the real scan.
+fn budget_scen(r: &mut Rng, w: &mut CaseWriter, dist: &mut Dist, hits: &mut Hits, fixed: Option<u64>) {
+    let budget = fixed.unwrap_or_else(|| r.range(1, 3)) as usize;
+    // c0: String or Int "tag", c1: Int
+    let t0 = if fixed.is_some() || r.chance(1, 2) { 2u64 } else { 0 };
+    let schema = vec![(t0, false), (0u64, r.chance(1, 3))];
+    let mut s = new_scen_with(schema.clone(), Some(budget));
+    dist.hit(&format!("budget.entries.{budget}"));
+    let vals: Vec<Vec<V>> = vec![
+        if t0 == 2 { vec![V::Str("x".into()), V::Str("y".into()), V::Str("z".into())] } else { vec![V::Int(1), V::Int(2), V::Int(3)] },
+        vec![V::Int(1), V::Int(2), V::Int(3), V::Int(4)],
+    ];
+    // indexes on the empty table
+    let mut idx_cols: Vec<(u64, u64)> = vec![];
+    if fixed.is_some() {
+        do_index(&mut s, 0, 0, dist);
+        do_index(&mut s, 1, 1, dist);
+        idx_cols = vec![(0, 0), (1, 1)];
+    } else {
+        for (col, kind) in [(0u64, 0u64), (1, 1), (0, 1), (1, 0)] {
+            if r.chance(if kind == 1 && col == 1 { 9 } else { 5 }, 10) {
+                do_index(&mut s, kind, col, dist);
+                idx_cols.push((col, kind));
+            }
+        }
+        if !idx_cols.iter().any(|(_, k)| *k == 1) {
+            do_index(&mut s, 1, 1, dist);
+            idx_cols.push((1, 1));
+        }
+    }
+    let mut script: Vec<u64> = vec![]; // fixed demo script for the corpus scenario
+    if fixed.is_some() {
+        // rows (x,1) (x,1) (x,2); UPDATE SET c0='y', c1=3 WHERE _id = 1 is rejected (budget 2)
+        for (a, b2) in [("x", 1), ("x", 1), ("x", 2)] {
+            do_insert(&mut s, vec![V::Str(a.into()), V::Int(b2)], dist);
+            index_shapes(&mut s, &idx_cols, &vals, r, dist, hits);
+        }
+        do_update(&mut s, &C::Cmp(0, ID_COL, V::Int(1)), vec![(0, V::Str("y".into())), (1, V::Int(3))], dist);
+        index_shapes(&mut s, &idx_cols, &vals, r, dist, hits);
+        // the same inside a transaction that is rolled back
+        let tx = s.eng().begin_transaction();
+        s.tx = Some(tx);
+        do_update(&mut s, &C::Cmp(0, ID_COL, V::Int(2)), vec![(0, V::Str("z".into())), (1, V::Int(4))], dist);
+        s.window = Some("open-tx-after-failed-statement");
+        s.window_reported = false;
+        index_shapes(&mut s, &idx_cols, &vals, r, dist, hits);
+        s.window = None;
+        let _ = s.eng().rollback(tx);
+        s.tx = None;
+        sync_step(&mut s, "rollback");
+        index_shapes(&mut s, &idx_cols, &vals, r, dist, hits);
+        script.push(1);
+    }
+    let nsteps = if fixed.is_some() { 0 } else { r.range(8, 16) };
+    for _ in 0..nsteps {
+        let k = r.below(100);
+        // open / close a transaction now and then
+        if s.tx.is_none() && k < 18 {
+            let tx = s.eng().begin_transaction();
+            s.tx = Some(tx);
+            s.human.push("begin".into());
+            dist.hit("budget.begin");
+            continue;
+        }
+        if let Some(tx) = s.tx {
+            if k < 30 {
+                let commit = r.chance(1, 2);
+                let ok = if commit { s.eng().commit(tx).is_ok() } else { s.eng().rollback(tx).is_ok() };
+                s.tx = None;
+                dist.hit(if commit { "budget.commit" } else { "budget.rollback" });
+                sync_step(&mut s, &format!("{}->{}", if commit { "commit" } else { "rollback" }, ok));
+                index_shapes(&mut s, &idx_cols, &vals, r, dist, hits);
+                continue;
+            }
+        }
+        let before = s.steps.len();
+        if k < 55 || s.cur.len() < 2 {
+            let v1 = if schema[1].1 && r.chance(1, 6) { V::Null } else { r.pick(&vals[1]).clone() };
+            do_insert(&mut s, vec![r.pick(&vals[0]).clone(), v1], dist);
+        } else if k < 88 {
+            // assign indexed columns; the condition picks one row or a few
+            let c = if r.chance(1, 2) {
+                C::Cmp(0, ID_COL, V::Int(r.range(1, s.cur.len().max(1) as u64) as i64))
+            } else {
+                let col = r.below(2);
+                C::Cmp(*r.pick(&[0u64, 3, 5]), col, r.pick(&vals[col as usize]).clone())
+            };
+            let mut sets = vec![];
+            if r.chance(2, 3) {
+                sets.push((0u64, r.pick(&vals[0]).clone()));
+            }
+            if sets.is_empty() || r.chance(2, 3) {
+                sets.push((1u64, r.pick(&vals[1]).clone()));
+            }
+            do_update(&mut s, &c, sets, dist);
+        } else {
+            let col = r.below(2);
+            let c = C::Cmp(0, col, r.pick(&vals[col as usize]).clone());
+            do_delete(&mut s, &c, dist);
+        }
+        // a statement that failed (rejected / ran out of entries)?
+        let _ = before;
+        if s.last_failed {
+            dist.hit("budget.failed_statement");
+            if let Some(tx) = s.tx {
+                s.window = Some("open-tx-after-failed-statement");
+                s.window_reported = false;
+                index_shapes(&mut s, &idx_cols, &vals, r, dist, hits);
+                s.window = None;
+                // a client rolls the transaction back after a failed statement
+                let ok = s.eng().rollback(tx).is_ok();
+                s.tx = None;
+                dist.hit("budget.rollback_after_failure");
+                sync_step(&mut s, &format!("rollback after failed statement->{ok}"));
+            }
+        }
+        index_shapes(&mut s, &idx_cols, &vals, r, dist, hits);
+    }
+    if let Some(tx) = s.tx {
+        let _ = s.eng().rollback(tx);
+        s.tx = None;
+        sync_step(&mut s, "rollback (end)");
+        index_shapes(&mut s, &idx_cols, &vals, r, dist, hits);
+    }
+    let _ = script;
+    s.nontrivial = true;
+    finish(&s, w, if fixed.is_some() { "corpus budget: update fails on the B-tree entry budget" } else { "budget" });
+}
+
 fn random_scen(r: &mut Rng, w: &mut CaseWriter, dist: &mut Dist, hits: &mut Hits, big: bool) {
     let ncols = r.range(1, 3) as usize;
     let schema: Vec<(u64, bool)> = (0..ncols)
@@ -874,11 +1097,18 @@ fn main() {
     for _ in 0..nbig {
         random_scen(&mut rng, &mut w, &mut dist, &mut hits, true);
     }
+    // engines with a tiny B-tree entry budget (own case kind: judged by the oracle alone)
+    let mut wb = CaseWriter::new(&args.out, "budget");
+    budget_scen(&mut rng, &mut wb, &mut dist, &mut hits, Some(2));
+    let nbudget = args.budget(60, 3000);
+    for _ in 0..nbudget {
+        budget_scen(&mut rng, &mut wb, &mut dist, &mut hits, None);
+    }
     write_meta(
         &args.out,
         json!({
             "property": "C04", "seed": args.seed, "tier": args.tier,
-            "kinds": [w.summary()],
+            "kinds": [w.summary(), wb.summary()],
             "distribution": dist.json(),
             "hits": hits.0,
             "nontrivial_rule": "a DML step touches at least one row, or a query selects a proper non-empty subset of the table",
